@@ -43,6 +43,53 @@ Theorem C12_append_text_nonempty : forall s, Forall (fun p => p <> []) (append_t
 Proof. exact append_text_nonempty. Qed.
 Print Assumptions C12_append_text_nonempty.
 
+(* ---- closed end to end: the candidates are COMPUTED from the text by the model of extract_tokens
+   (Model/Extract.v: re.finditer by the verified engine over the regenerated extractor table, the
+   Aho-Corasick pre-filter, Token.from_match), so no hypothesis on the candidate list remains ---- *)
+From EV Require Import Regex.Syntax Regex.Decl Regex.Match Regex.C13Check Model.Extract Model.E2E Proofs.ExtractSpec Proofs.ExtractProofs.
+
+(* every match the scanner model reports is a match of the pattern (declarative semantics), inside the
+   text, with its captures inside the match; successive matches never overlap *)
+Theorem C12_finditer_sound : forall U ci s r i j c, In (i, j, c) (finditer U ci s r) ->
+  M U ci s r i j /\ i <= j /\ j <= length s /\ (forall n a b, In (n, (a, b)) c -> i <= a /\ a <= b /\ b <= j).
+Proof. exact finditer_sound. Qed.
+Print Assumptions C12_finditer_sound.
+
+Theorem C12_finditer_chain : forall U ci s r, chain scan_step (finditer U ci s r).
+Proof. exact finditer_chain. Qed.
+Print Assumptions C12_finditer_chain.
+
+(* every candidate any extractor list yields indexes its own text *)
+Theorem C12_candidates_wf : forall U xs s, Forall (cand_wf s) (extract_with U xs s).
+Proof. exact extract_with_wf. Qed.
+Print Assumptions C12_candidates_wf.
+
+(* every extractor of the live table yields one token per match (group 1 always participates) *)
+Theorem C12_one_token_per_match : forall x s, In x Gen.ExtractTable.xtable ->
+  length (tokens_of Gen.Unicode.U x s) = length (finditer Gen.Unicode.U (row_ci (fst x)) s (row_re (fst x))).
+Proof. exact xtable_tokens_of_length. Qed.
+Print Assumptions C12_one_token_per_match.
+
+(* the partition property for the default tokenizer as a function of the text alone *)
+Theorem C12_text_concat : forall s, stream_text (fst (tokenize_text s)) = s.
+Proof. exact tokenize_text_concat. Qed.
+Print Assumptions C12_text_concat.
+
+Theorem C12_text_index : forall s, snd (tokenize_text s) = specials (fst (tokenize_text s)).
+Proof. exact tokenize_text_index. Qed.
+Print Assumptions C12_text_index.
+
+Theorem C12_text_offsets : forall s i t, In (i, t) (snd (tokenize_text s)) ->
+  nth_error (fst (tokenize_text s)) i = Some (T t) /\ cand_wf s t /\
+  length (stream_text (firstn i (fst (tokenize_text s)))) = t_start t.
+Proof. exact tokenize_text_offsets. Qed.
+Print Assumptions C12_text_offsets.
+
+Theorem C12_text_increasing : forall s l1 i t j t' l2,
+  snd (tokenize_text s) = l1 ++ (i, t) :: (j, t') :: l2 -> (i < j)%nat /\ (t_end t <= t_start t')%nat.
+Proof. exact tokenize_text_increasing. Qed.
+Print Assumptions C12_text_increasing.
+
 (* non-vacuity: a nominative-reporter candidate overlapped by a later
    citation candidate (the pop branch) on "Ab Thompson 1 U" *)
 Example C12_nonvacuous :
